@@ -730,9 +730,22 @@ func Run(tp *tape.Tape, env *engine.Env) *engine.Outcome {
 	}
 	for k := 0; k < ncancel; k++ {
 		p := refPol.seen[tp.Draw("cancelpos", len(refPol.seen))]
-		err, state, _ := r.execCancel(c, false, nil, p.key)
+		// sometimes together with a failing write somewhere else: two reasons to fail at once
+		var inject map[string]sched.Decision
+		if tp.Draw("cancelplusfault", 2) == 1 {
+			q := refPol.seen[tp.Draw("cancelfaultpos", len(refPol.seen))]
+			if ks := faultKindsFor(c, q.kind); len(ks) > 0 && q.key != p.key {
+				inject = map[string]sched.Decision{q.key: {Fault: ks[tp.Draw("cancelfaultkind", len(ks))]}}
+			}
+		}
+		before := totalFired(s)
+		err, state, _ := r.execCancel(c, false, inject, p.key)
 		counters["cancel_executions"]++
 		s.Event("cancel@%s err=%v", p.key, err != nil)
+		if inject != nil && totalFired(s)-before > 1 && err == nil {
+			s.Violate("write-failure-reported", "C15|unreported|"+c.wp.name+"|fault+cancel",
+				"%s (dst=%s atomic=%v): a write fault fired and the context was cancelled at %s, but the operation returned nil", c.wp.name, c.dstKind, c.atomic, p.key)
+		}
 		if err == nil {
 			if d := diffState(E, state); d != "" {
 				s.Violate("success-implies-complete", "C15|success-incomplete|"+c.wp.name+"|cancel@"+p.kind,
